@@ -11,7 +11,7 @@ ASSUMPTIONS = ["QRegExp is an oracle (pattern, path) -> (match, rest after match
 TRUSTED = ["instrumented Handler/Middleware subclasses log their invocation; SimTcp stands in for TCP"]
 
 SEGS = [b"api", b"a", b"b", b"go", b"x1", b"42", b"files", b"a%20b", b"%0d%0aX-Evil:%20y", b"%2f", b"%25", b"%252", b"%251", b"%2541", b"g%256F", b"%252F", b"%2561pi", b"a%252Fb", b"%E2%82%AC", b"", b".", b"%3f", b"a+b", b"~u"]
-SUBPATS = [b"^api/", b"^a", b"^(\\w+)/", b"^files/?", b"^go/", b"^", b"^x\\d+", b"^[ab]+/", b"^api", b"^%", b"^nomatch/",
+SUBPATS = [b"^apis?/", b"^x1*", b"^api/{0,1}", b"^go?/", b"^ab?", b"^api/", b"^a", b"^(\\w+)/", b"^files/?", b"^go/", b"^", b"^x\\d+", b"^[ab]+/", b"^api", b"^%", b"^nomatch/",
            b"^\\d*", b"^[a-c]*", b"^.*", b"^(x?)"]        # patterns that can match the empty string at the start
 REDIRPATS = [b"^go/(.*)$", b"^old$", b"^(\\w+)/(\\d+)$", b"^a(.)(.)", b"^$", b"(\\d+)", b"^never$", b"^x(\\d)(\\d)?$", b"b$"]
 TEMPLATES = [b"/new/%1", b"/%2/%1", b"%1%1", b"/fixed", b"/p/%1/%3", b"/n/%1/%2", b"http://h/%1?q=%1"]
